@@ -208,6 +208,14 @@ func checkC07(run *Run, res *Result) {
 				res.probe("event-arrived-before-its-coverage")
 			}
 			fifo[key] = append(fifo[key], x)
+		case journal.KTrack:
+			// a position handed to the consumer's offset tracker (acknowledgement or absorbed stream event)
+			if e.Off != nil && e.Off.Seq > 0 && !covered(e.M, e.Vb, e.Off.Seq) && !closing[e.M] {
+				res.violate("C07", "R1-position-advanced-before-persisted-everywhere", e.N, "plain",
+					"member %d vb %d: position %d was reported to the consumer's offset tracker before every listed copy had reported it persisted under one vbUUID", e.M, e.Vb, e.Off.Seq)
+			} else if e.Off != nil {
+				res.probe("tracked-position-judged")
+			}
 		case journal.KConsume:
 			if !covered(e.M, e.Vb, e.Seq) {
 				sig := "plain"
